@@ -299,6 +299,10 @@ def gen_float_col(rng, n, rounding):
     m = rng.random(n)
     v = np.where(m < 0.15, np.round(v), v)
     v = np.where((m >= 0.15) & (m < 0.3), rng.uniform(-360, 360, n), v)
+    if n and rng.random() < 0.25:       # magnitudes whose str() uses exponent notation (>= 1e16), exact decimal mantissas
+        big = np.array([1e16, 4e19, 1.5e20, -2.5e17, 1e22, 3e16, -1e18, 7.25e21, 1.2345678901234567e20, 9.007199254740993e15 * 4])
+        k = rng.random(n) < 0.4
+        v = np.where(k, rng.choice(big, n), v)
     if rounding:
         pool = np.array([4e-7, -4e-7, 5.1e-7, 9.6e-7, 1e-6, 1.4999e-6, 0.1234565, 0.1234564999, 2.0000005, -0.0000004, 123456.7890125,
                          1e-9, 0.9999996, 359.9999999, 1e12 + 0.25, -1e12 - 0.75, 0.30000000000000004])
